@@ -91,4 +91,18 @@ def mergeKeysV (maps : List (List (V × V))) : List V := mergeKeys cmpV maps
 /-- `merged[key]` -/
 def mergeGetV (maps : List (List (V × V))) (k : V) : Option V := mergeGet cmpV isUndefV .undef maps k
 
+/-! ## `namespace(m)` -/
+
+/-- `Value::as_key_str().is_some()`: string values only (bytes that hold utf-8 are not strings) -/
+def isStrKey : V → Bool
+  | .str _ => true
+  | _ => false
+
+/-- `namespace(m)` after fix 903639e: the entries of `m` with string keys, inserted one by one -/
+def nsCopyV (ps : List (V × V)) : List (V × V) := dictCopyV (ps.filter (fun p => isStrKey p.1))
+
+/-- `Namespace::get_value(key)`: `as_key_str` first, then the ordered map -/
+def nsGetV (ps : List (V × V)) (k : V) : Option V :=
+  if isStrKey k then get cmpV k (nsCopyV ps) else none
+
 end MJ.CollD
